@@ -23,15 +23,24 @@ package udp
 
 // ---- listener demultiplexing (C11).  The table of connections is a monitor: every entry is registered under the textual
 // ---- form of its own remote address.  dispN / dispBuf: ghost log of the buffer writes dispatchMsg performs.
-//@ monitor listener connLock: conns
-//@ invariant (l *listener) keyed: l.conns != nil && (forall k string :: {k in l.conns} (k in l.conns) ==> l.conns[k] != nil && l.conns[k].rAddr != nil && addrStr[ref(l.conns[k].rAddr)] == k && l.conns[k].buffer != nil)
+// Ghost typestate of a connection, guarded by the listener's lock: reg = it is the table entry of its remote now;
+// ever = it has been registered (only such connections are handed out by Accept).
+//@ monitor listener connLock: conns; owns ghost:Conn
+//@ ghost Conn reg bool
+//@ ghost Conn ever bool
+//@ ghost Conn gone bool
+//@ invariant (l *listener) keyed: l.conns != nil && (forall k string :: {k in l.conns} (k in l.conns) ==> l.conns[k] != nil && l.conns[k].rAddr != nil && addrStr[ref(l.conns[k].rAddr)] == k && l.conns[k].buffer != nil &&
+//@            l.conns[k].reg && l.conns[k].ever && l.conns[k].listener == l)
+//@ invariant (l *listener) uniq: forall x *Conn :: {x.reg} x != nil && x.reg && x.listener == l ==> (addrStr[ref(x.rAddr)] in l.conns) && l.conns[addrStr[ref(x.rAddr)]] == x
+//@ rely (l *listener) holder.mono: forall x *Conn :: {x.ever} old(x.ever) ==> x.ever
+//@ invariant (l *listener) live: forall x *Conn :: {x.ever} x != nil && x.ever && x.listener == l && !x.gone ==> x.reg
 //@ ghost global dispN mathint
 //@ ghost global dispBuf mathint
 //@ ghost global lastConn mathint
 //@ ghost global filterOk bool
 
 //@ func (l *listener) newConn(rAddr net.Addr) (c *Conn)
-//@   ensures c != nil && fresh(c) && c.listener == l && c.rAddr == rAddr && c.buffer != nil && c.doneCh != nil && !closed(c.doneCh)
+//@   ensures c != nil && fresh(c) && c.listener == l && c.rAddr == rAddr && c.buffer != nil && c.doneCh != nil && !closed(c.doneCh) && !c.reg && !c.ever && !c.gone && !oncedone(c.doneOnce)
 
 //@ func (l *listener) getConn(raddr net.Addr, buf []byte) (c *Conn, ok bool, err error)
 //@   requires raddr != nil && l.acceptCh != nil
@@ -47,6 +56,7 @@ package udp
 //@   ensures [full] err == ErrListenQueueExceeded ==> atlock(len(l.acceptCh) >= cap(l.acceptCh))
 //@   ensures [others] forall k string :: {k in l.conns} k != addrStr[ref(raddr)] ==> (k in l.conns) == atlock(k in l.conns) && l.conns[k] == atlock(l.conns[k])
 //@   ghost at return: lastConn = ref(c)
+//@   ghost at unlock when !atlock(addrStr[ref(raddr)] in l.conns) && (addrStr[ref(raddr)] in l.conns): l.conns[addrStr[ref(raddr)]].reg = true; l.conns[addrStr[ref(raddr)]].ever = true
 
 // a datagram is written once, to the buffer of the connection registered for its sender, and to no other
 //@ func (l *listener) dispatchMsg(addr net.Addr, buf []byte)
@@ -68,7 +78,13 @@ package udp
 // closing a connection removes its own entry only
 //@ func (c *Conn) Close() (err error)
 //@   requires c.listener != nil && c.rAddr != nil && c.buffer != nil && c.doneCh != nil && c.listener.connWG != nil
+//@   requires [accepted] c.ever
+//@   role holder
 //@   option trust_unlocked_close=true
+//@   ghost at lock when !oncedone(c.doneOnce): assume !c.gone
+//@   ghost at unlock: c.reg = false; c.gone = true
+//@   ensures [mine] atlock(addrStr[ref(c.rAddr)] in c.listener.conns) && atlock(c.listener.conns[addrStr[ref(c.rAddr)]]) != c ==>
+//@            (addrStr[ref(c.rAddr)] in c.listener.conns) && c.listener.conns[addrStr[ref(c.rAddr)]] == atlock(c.listener.conns[addrStr[ref(c.rAddr)]])
 //@   ensures [removed] !old(closed(c.doneCh)) && closed(c.doneCh) ==> !(addrStr[ref(c.rAddr)] in c.listener.conns)
 //@   ensures [own] forall k string :: {k in c.listener.conns} k != addrStr[ref(c.rAddr)] ==> (k in c.listener.conns) == atlock(k in c.listener.conns) && c.listener.conns[k] == atlock(c.listener.conns[k])
 
